@@ -53,9 +53,11 @@ def optimal_obls(E, A, tuples, covers, rz, what="best"):
     costs = [common.alignment_cost(cov, sizes, de, pair) for cov in covers]
     d = A.disorder
     for k, cst in enumerate(costs):
-        obls.append(Obl(f"{what}-disorder<=every-{'cover' if what == 'soft' else 'partition'}[{k}]", core.SymBool(core.lift(d) <= core.lift(cst)), rz))
+        # tolerance 1e-9 (relative): the code divides by the *float* mean number of units per annotator
+        obls.append(Obl(f"{what}-disorder<=every-{'cover' if what == 'soft' else 'partition'}[{k}]", core.approx_le(d, cst, cst), rz))
     if tuples is not None:
-        obls.append(Obl(f"{what}-disorder==definition-on-returned-units", core.eq(d, common.alignment_cost(tuples, sizes, de, pair)), rz))
+        want = common.alignment_cost(tuples, sizes, de, pair)
+        obls.append(Obl(f"{what}-disorder==definition-on-returned-units", core.approx(d, want, want), rz))
         for ua, t in zip(A.unitary_alignments, tuples):
             obls.append(Obl("carried-unitary-disorder==definition", core.eq(ua.disorder, common.tuple_cost(t, sizes, de, pair)), rz))
     return obls
